@@ -602,6 +602,126 @@ theorem flatMap_ext {α β} (l : List α) (f g : α → List β) (h : ∀ x ∈ 
   | nil => rfl
   | cons a l ih => simp [List.flatMap_cons, h a (by simp), ih (fun x hx => h x (by simp [hx]))]
 
+/-! ### the candidate loop -/
+theorem dedup_head (a : PStr) (acc l : List PStr) :
+    ∃ tl, l.foldl (fun acc e => if acc.contains e then acc else acc ++ [e]) (a :: acc) = a :: tl := by
+  induction l generalizing acc with
+  | nil => exact ⟨acc, rfl⟩
+  | cons e l ih =>
+    simp only [List.foldl_cons]
+    split
+    · exact ih acc
+    · exact ih (acc ++ [e])
+
+theorem candidates_head (enc : PStr) (rest : List PStr) : ∃ tl, candidates (enc :: rest) = enc :: tl := by
+  unfold candidates
+  simp only [List.cons_append, List.foldl_cons, List.contains_nil, Bool.false_eq_true, if_false, List.nil_append]
+  exact dedup_head enc [] _
+
+/-- when the first known encoding converts to a non-empty string, that is `unicode_markup` -/
+theorem unicodeMarkupWith_first (T : MsTables) (enc : PStr) (rest : List PStr) (mode : Mode) (markup : Bytes) (u : PStr)
+    (h : convertWith T enc mode false markup = some u) (hu : u ≠ []) :
+    unicodeMarkupWith T (enc :: rest) mode markup = (some u, false) := by
+  obtain ⟨tl, htl⟩ := candidates_head enc rest
+  unfold unicodeMarkupWith
+  simp only [htl, firstPass, h]
+  have : u.isEmpty = false := by cases u <;> simp_all
+  simp [this]
+
+/-! ### the strict decoder accepts exactly the encodings of scalar values -/
+theorem enc2 (b0 b1 : Nat) (h0 : 194 ≤ b0) (h0' : b0 ≤ 223) (h1 : 128 ≤ b1) (h1' : b1 ≤ 191) :
+    encodeUtf8 ((b0 - 0xC0) * 64 + (b1 - 0x80)) = [b0, b1] ∧ IsScalar ((b0 - 0xC0) * 64 + (b1 - 0x80)) := by
+  generalize hc : (b0 - 0xC0) * 64 + (b1 - 0x80) = c
+  refine ⟨?_, by unfold IsScalar; omega⟩
+  unfold encodeUtf8
+  rw [if_neg (by omega), if_pos (by omega)]
+  have e0 : 0xC0 + c / 64 = b0 := by omega
+  have e1 : 0x80 + c % 64 = b1 := by omega
+  rw [e0, e1]
+
+theorem enc3 (b0 b1 b2 : Nat) (h0 : 224 ≤ b0) (h0' : b0 ≤ 239)
+    (hlo : (if b0 = 224 then 160 else 128) ≤ b1) (hhi : b1 ≤ if b0 = 237 then 159 else 191)
+    (h2 : 128 ≤ b2) (h2' : b2 ≤ 191) :
+    encodeUtf8 ((b0 - 0xE0) * 4096 + (b1 - 0x80) * 64 + (b2 - 0x80)) = [b0, b1, b2] ∧
+    IsScalar ((b0 - 0xE0) * 4096 + (b1 - 0x80) * 64 + (b2 - 0x80)) := by
+  generalize hc : (b0 - 0xE0) * 4096 + (b1 - 0x80) * 64 + (b2 - 0x80) = c
+  have hb1 : 128 ≤ b1 ∧ b1 ≤ 191 := by split at hlo <;> split at hhi <;> omega
+  have hge : 0x800 ≤ c := by split at hlo <;> omega
+  have hsur : c < 0xD800 ∨ 0xE000 ≤ c := by split at hhi <;> omega
+  refine ⟨?_, by unfold IsScalar; omega⟩
+  unfold encodeUtf8
+  rw [if_neg (by omega), if_neg (by omega), if_pos (by omega)]
+  have e0 : 0xE0 + c / 4096 = b0 := by omega
+  have e1 : 0x80 + c / 64 % 64 = b1 := by omega
+  have e2 : 0x80 + c % 64 = b2 := by omega
+  rw [e0, e1, e2]
+
+theorem enc4 (b0 b1 b2 b3 : Nat) (h0 : 240 ≤ b0) (h0' : b0 ≤ 244)
+    (hlo : (if b0 = 240 then 144 else 128) ≤ b1) (hhi : b1 ≤ if b0 = 244 then 143 else 191)
+    (h2 : 128 ≤ b2) (h2' : b2 ≤ 191) (h3 : 128 ≤ b3) (h3' : b3 ≤ 191) :
+    encodeUtf8 ((b0 - 0xF0) * 262144 + (b1 - 0x80) * 4096 + (b2 - 0x80) * 64 + (b3 - 0x80)) = [b0, b1, b2, b3] ∧
+    IsScalar ((b0 - 0xF0) * 262144 + (b1 - 0x80) * 4096 + (b2 - 0x80) * 64 + (b3 - 0x80)) := by
+  generalize hc : (b0 - 0xF0) * 262144 + (b1 - 0x80) * 4096 + (b2 - 0x80) * 64 + (b3 - 0x80) = c
+  have hb1 : 128 ≤ b1 ∧ b1 ≤ 191 := by split at hlo <;> split at hhi <;> omega
+  have hge : 0x10000 ≤ c := by split at hlo <;> omega
+  have hlt : c < 0x110000 := by split at hhi <;> omega
+  refine ⟨?_, by unfold IsScalar; omega⟩
+  unfold encodeUtf8
+  rw [if_neg (by omega), if_neg (by omega), if_neg (by omega)]
+  have e0 : 0xF0 + c / 262144 = b0 := by omega
+  have e1 : 0x80 + c / 4096 % 64 = b1 := by omega
+  have e2 : 0x80 + c / 64 % 64 = b2 := by omega
+  have e3 : 0x80 + c % 64 = b3 := by omega
+  rw [e0, e1, e2, e3]
+
+theorem isCont_iff (b : Nat) : isCont b = true ↔ 128 ≤ b ∧ b ≤ 191 := by
+  unfold isCont; simp
+
+/-- helper: the shape of the successful cases -/
+theorem sound_step (pre : Bytes) (c : Nat) (r : Bytes) (s : PStr) (henc : encodeUtf8 c = pre) (hsc : IsScalar c)
+    (ih : ∀ s', decodeUtf8 r = some s' → r = utf8 s' ∧ ∀ x ∈ s', IsScalar x)
+    (h : (decodeUtf8 r).map (c :: ·) = some s) : pre ++ r = utf8 s ∧ ∀ x ∈ s, IsScalar x := by
+  cases hd : decodeUtf8 r with
+  | none => simp [hd] at h
+  | some s' =>
+    simp only [hd, Option.map_some, Option.some.injEq] at h
+    subst h
+    obtain ⟨h1, h2⟩ := ih s' hd
+    refine ⟨by rw [h1]; simp [utf8, henc], ?_⟩
+    intro x hx
+    simp only [List.mem_cons] at hx
+    rcases hx with rfl | hx
+    · exact hsc
+    · exact h2 x hx
+
+theorem decodeUtf8_sound (bs : Bytes) (s : PStr) (h : decodeUtf8 bs = some s) :
+    bs = utf8 s ∧ ∀ c ∈ s, IsScalar c := by
+  fun_induction decodeUtf8 bs generalizing s with
+  | case1 => simp at h; subst h; simp [utf8]
+  | case2 b0 rest hb ih =>
+    have henc : encodeUtf8 b0 = [b0] := by simp [encodeUtf8, hb]
+    exact sound_step [b0] b0 rest s henc (by unfold IsScalar; omega) ih h
+  | case3 b0 hn hb b1 r hc ih =>
+    simp only [Bool.and_eq_true, decide_eq_true_eq] at hb
+    rw [isCont_iff] at hc
+    obtain ⟨e, sc⟩ := enc2 b0 b1 hb.1 hb.2 hc.1 hc.2
+    exact sound_step [b0, b1] _ r s e sc ih h
+  | case6 b0 hn hn2 hb b1 b2 r hc ih =>
+    simp only [Bool.and_eq_true, decide_eq_true_eq, isCont_iff] at hb hc
+    obtain ⟨e, sc⟩ := enc3 b0 b1 b2 hb.1 hb.2 hc.1.1 hc.1.2 hc.2.1 hc.2.2
+    exact sound_step [b0, b1, b2] _ r s e sc ih h
+  | case9 b0 hn hn2 hn3 hb b1 b2 b3 r hc ih =>
+    simp only [Bool.and_eq_true, decide_eq_true_eq, isCont_iff] at hb hc
+    obtain ⟨e, sc⟩ := enc4 b0 b1 b2 b3 hb.1 hb.2 hc.1.1.1 hc.1.1.2 hc.1.2.1 hc.1.2.2 hc.2.1 hc.2.2
+    exact sound_step [b0, b1, b2, b3] _ r s e sc ih h
+  | case4 => simp at h
+  | case5 => simp at h
+  | case7 => simp at h
+  | case8 => simp at h
+  | case10 => simp at h
+  | case11 => simp at h
+  | case12 => simp at h
+
 /-- For closed examples: evaluate both sides with `==` in the kernel (much faster than deciding `=`). -/
 def evalsTo {α} [BEq α] (a b : α) : Bool := a == b
 
